@@ -993,10 +993,257 @@ fn stress_container(cfg: &StressCfg, reader: Arc<Box<dyn TilesReaderTrait>>, bas
 	(total, fails, sample)
 }
 
+
+// ───────────── part 3b: rounds on freshly opened versatiles readers (cold caches): streams + lookups ─────────────
+
+/// copy of a valid versatiles file in which the tile index of block record `bi` has `drop` entries
+/// fewer than the block covers (same construction as in c20.rs): its index loader must FAIL, every time
+fn damage_tile_index(bytes: &[u8], bi: usize, drop: usize) -> Option<Vec<u8>> {
+	use crate::indep_formats::{brotli_c, brotli_d, parse_versatiles};
+	let parsed = parse_versatiles(bytes).ok()?;
+	let rec = parsed.records.get(bi)?;
+	let (off, bl, il) = (rec.offset as usize, rec.blobs_len as usize, rec.index_len as usize);
+	let index = brotli_d(&bytes[off + bl..off + bl + il]).ok()?;
+	if index.len() < 12 * (drop + 1) {
+		return None;
+	}
+	let new_index = brotli_c(&index[..index.len() - 12 * drop]);
+	let mut out = bytes.to_vec();
+	let new_off = out.len();
+	out.extend_from_slice(&bytes[off..off + bl]);
+	out.extend_from_slice(&new_index);
+	let mut raw_bi = vec![];
+	for (i, r) in parsed.records.iter().enumerate() {
+		let mut raw = r.raw.clone();
+		if i == bi {
+			raw[13..21].copy_from_slice(&(new_off as u64).to_be_bytes());
+			raw[29..33].copy_from_slice(&(new_index.len() as u32).to_be_bytes());
+		}
+		raw_bi.extend_from_slice(&raw);
+	}
+	let cbi = brotli_c(&raw_bi);
+	let bi_off = out.len();
+	out.extend_from_slice(&cbi);
+	out[50..58].copy_from_slice(&(bi_off as u64).to_be_bytes());
+	out[58..66].copy_from_slice(&(cbi.len() as u64).to_be_bytes());
+	Some(out)
+}
+
+type StreamResult = Vec<((u8, u32, u32), Vec<u8>)>;
+
+/// a file on which every round opens a FRESH reader: the expected verdict of every probe is the
+/// verdict of a reader that has done nothing else (`some:<hex>` / `none` / `err` / `panic`), the
+/// expected result of every box is the stream run alone
+struct RoundTarget {
+	path: PathBuf,
+	probes: Vec<(TileCoord3, String)>,
+	boxes: Vec<(TileBBox, StreamResult)>,
+}
+
+fn verdict_of(r: Result<anyhow::Result<Option<Blob>>, String>) -> String {
+	match r {
+		Ok(Ok(Some(b))) => format!("some:{}", hex(b.as_slice())),
+		Ok(Ok(None)) => "none".into(),
+		Ok(Err(_)) => "err".into(),
+		Err(_) => "panic".into(),
+	}
+}
+
+async fn collect_stream(reader: &dyn TilesReaderTrait, bbox: &TileBBox) -> StreamResult {
+	let mut v: StreamResult = reader.get_bbox_tile_stream(bbox.clone()).await.collect().await.into_iter().map(|(c, b)| ((c.z, c.x, c.y), b.into_vec())).collect();
+	v.sort();
+	v
+}
+
+fn blocks_source() -> MemSource {
+	// 4 × 4 blocks at zoom 12 with a few tiny tiles each (next to the block borders and inside), zoom 3 complete
+	let mut tiles = vec![];
+	for bx in 0..4u32 {
+		for by in 0..4u32 {
+			for (dx, dy) in [(0u32, 0u32), (255, 255), (255, 0), (1, 254), (100, 37), (17, 200)] {
+				let c = TileCoord3::new(bx * 256 + dx, by * 256 + dy, 12).unwrap();
+				let mut b = tile_bytes(&c);
+				b.truncate(24);
+				tiles.push((c, Blob::from(b)));
+			}
+		}
+	}
+	for x in 0..8u32 {
+		for y in 0..8u32 {
+			let c = TileCoord3::new(x, y, 3).unwrap();
+			let mut b = tile_bytes(&c);
+			b.truncate(20);
+			tiles.push((c, Blob::from(b)));
+		}
+	}
+	MemSource::new("c13-blocks", TileFormat::PBF, TileCompression::Uncompressed, tiles)
+}
+
+fn round_targets(args: &Args, out: &mut Out, targets: &[&str]) -> HashMap<String, RoundTarget> {
+	let mut m = HashMap::new();
+	if !targets.iter().any(|t| *t == "versatiles-blocks" || *t == "versatiles-damaged") {
+		return m;
+	}
+	let rt = tokio::runtime::Builder::new_current_thread().enable_all().build().unwrap();
+	let path = args.out.join("c13_blocks.versatiles");
+	let mut src = blocks_source();
+	let coords = src.coords();
+	if let Err(e) = rt.block_on(async { write_to_filename(&mut src, path.to_str().unwrap()).await }) {
+		out.notes.push(format!("versatiles-blocks: could not write the container: {e}"));
+		return m;
+	}
+	let mut probes_c = coords.clone();
+	for i in 0..120u32 {
+		probes_c.push(TileCoord3::new((i * 37 + 3) % 1024, (i * 91 + 7) % 1024, 12).unwrap());
+	}
+	// the expected verdict of a probe: a reader that does nothing else
+	let fresh_verdicts = |p: &Path, one_reader: bool| -> Vec<(TileCoord3, String)> {
+		rt.block_on(async {
+			let mut v = vec![];
+			let mut shared = if one_reader { get_reader(p.to_str().unwrap()).await.ok() } else { None };
+			for c in &probes_c {
+				let verdict = if one_reader {
+					match &shared {
+						Some(r) => verdict_of(Ok(r.get_tile_data(c).await)),
+						None => "open-err".into(),
+					}
+				} else {
+					match get_reader(p.to_str().unwrap()).await {
+						Ok(r) => verdict_of(Ok(r.get_tile_data(c).await)),
+						Err(_) => "open-err".into(),
+					}
+				};
+				v.push((*c, verdict));
+			}
+			shared.take();
+			v
+		})
+	};
+	if targets.contains(&"versatiles-blocks") {
+		let mut boxes = vec![];
+		for (z, x0, y0, x1, y1) in [(12u8, 0u32, 0u32, 1023u32, 1023u32), (12, 200, 200, 300, 300), (12, 250, 0, 260, 1023), (12, 0, 255, 1023, 256), (12, 255, 255, 512, 512), (12, 500, 10, 800, 700), (12, 0, 0, 255, 255), (3, 0, 0, 7, 7), (12, 256, 256, 767, 767)] {
+			let b = TileBBox::new(z, x0, y0, x1, y1).unwrap();
+			let res = rt.block_on(async {
+				let r = get_reader(path.to_str().unwrap()).await.unwrap();
+				collect_stream(r.as_ref(), &b).await
+			});
+			boxes.push((b, res));
+		}
+		out.extra.insert("versatiles-blocks_setup".into(), json!({"tiles": coords.len(), "boxes": boxes.len(), "tiles_per_box": boxes.iter().map(|b| b.1.len()).collect::<Vec<_>>()}));
+		out.oracle(boxes[0].1.len() >= 96, "C13 blocks-setup: the multi-block stream does not deliver the stored tiles when run alone", json!({"kind": "blocks-setup"}), json!({"delivered": boxes[0].1.len()}));
+		m.insert("versatiles-blocks".to_string(), RoundTarget { path: path.clone(), probes: fresh_verdicts(&path, true), boxes });
+	}
+	if targets.contains(&"versatiles-damaged") {
+		let bytes = std::fs::read(&path).unwrap_or_default();
+		match damage_tile_index(&bytes, 0, 1).or_else(|| damage_tile_index(&bytes, 1, 1)) {
+			Some(d) => {
+				let dpath = args.out.join("c13_damaged.versatiles");
+				std::fs::write(&dpath, d).unwrap();
+				// one FRESH reader per probe: a failed index load must not change any later answer
+				let probes = fresh_verdicts(&dpath, false);
+				let n_err = probes.iter().filter(|p| p.1 == "err").count();
+				out.extra.insert("versatiles-damaged_setup".into(), json!({"probes": probes.len(), "probes_answered_err_by_a_fresh_reader": n_err}));
+				out.oracle(n_err > 0, "C13 damaged-setup: no probe of the damaged container fails on a fresh reader", json!({"kind": "damaged-setup"}), json!({}));
+				m.insert("versatiles-damaged".to_string(), RoundTarget { path: dpath, probes, boxes: vec![] });
+			}
+			None => out.notes.push("versatiles-damaged: could not damage a tile index of the stress container".into()),
+		}
+	}
+	m
+}
+
+/// rounds: a fresh reader (cold tile-index cache) shared by `threads` callers that mix bbox streams
+/// (if the target has boxes) and lookups; every stream must equal the stream run alone, every
+/// lookup verdict the verdict of a fresh reader
+fn stress_rounds(cfg: &StressCfg, target: &RoundTarget) -> (u64, Vec<Fail>, Vec<(u64, u64)>) {
+	let target_probes = Arc::new(target.probes.clone());
+	let target_boxes = Arc::new(target.boxes.clone());
+	const PER_ROUND: usize = 6;
+	let rounds = (cfg.calls / PER_ROUND).max(1);
+	let mut total = 0u64;
+	let mut fails: Vec<Fail> = vec![];
+	let mut sample = vec![];
+	let rt_multi = if cfg.exec == "tokio" { Some(tokio::runtime::Builder::new_multi_thread().worker_threads(16).enable_all().build().unwrap()) } else { None };
+	let opener = tokio::runtime::Builder::new_current_thread().enable_all().build().unwrap();
+	for round in 0..rounds {
+		let Ok(reader) = opener.block_on(get_reader(target.path.to_str().unwrap())) else {
+			fails.push(Fail { kind: "error", detail: json!({"open": "failed"}) });
+			break;
+		};
+		let reader: Arc<Box<dyn TilesReaderTrait>> = Arc::new(reader);
+		let work = |t: usize, reader: Arc<Box<dyn TilesReaderTrait>>, probes: Arc<Vec<(TileCoord3, String)>>, boxes: Arc<Vec<(TileBBox, StreamResult)>>, seed: u64| async move {
+			let mut rng = Rng::new(seed);
+			let mut fails = vec![];
+			let mut n = 0u64;
+			for _ in 0..PER_ROUND {
+				if !boxes.is_empty() && rng.chance(1, 2) {
+					let bi = rng.below(boxes.len() as u64) as usize;
+					let got = collect_stream(reader.as_ref().as_ref(), &boxes[bi].0).await;
+					n += 1;
+					if got != boxes[bi].1 {
+						let wrong = got.iter().filter(|g| !boxes[bi].1.contains(g)).count();
+						fails.push(Fail { kind: "wrong-stream", detail: json!({"thread": t, "box": format!("{:?}", boxes[bi].0), "delivered": got.len(), "expected": boxes[bi].1.len(), "items_not_in_the_sequential_result": wrong}) });
+					}
+				} else {
+					for _ in 0..4 {
+						let pi = rng.below(probes.len() as u64) as usize;
+						let v = verdict_of(Ok(reader.get_tile_data(&probes[pi].0).await));
+						n += 1;
+						if v != probes[pi].1 {
+							let c = probes[pi].0;
+							fails.push(Fail { kind: "wrong-verdict", detail: json!({"thread": t, "coord": format!("{}/{}/{}", c.z, c.x, c.y), "returned": trunc(&v, 60), "fresh_reader": trunc(&probes[pi].1, 60)}) });
+						}
+					}
+				}
+			}
+			(n, fails)
+		};
+		let seed0 = cfg.seed.wrapping_mul(7919).wrapping_add(round as u64 * 131);
+		let results: Vec<(u64, Vec<Fail>)> = if let Some(rt) = &rt_multi {
+			rt.block_on(async {
+				let hs: Vec<_> = (0..cfg.threads).map(|t| tokio::spawn(work(t, reader.clone(), target_probes.clone(), target_boxes.clone(), seed0 + t as u64))).collect();
+				let mut v = vec![];
+				for h in hs {
+					match h.await {
+						Ok(x) => v.push(x),
+						Err(_) => v.push((0, vec![Fail { kind: "panic", detail: json!({}) }])),
+					}
+				}
+				v
+			})
+		} else {
+			let barrier = Arc::new(std::sync::Barrier::new(cfg.threads));
+			let hs: Vec<_> = (0..cfg.threads)
+				.map(|t| {
+					let (reader, probes, boxes, barrier) = (reader.clone(), target_probes.clone(), target_boxes.clone(), barrier.clone());
+					std::thread::spawn(move || {
+						barrier.wait();
+						futures::executor::block_on(work(t, reader, probes, boxes, seed0 + t as u64))
+					})
+				})
+				.collect();
+			hs.into_iter().map(|h| h.join().unwrap_or((0, vec![Fail { kind: "panic", detail: json!({}) }]))).collect()
+		};
+		for (n, f) in results {
+			total += n;
+			for x in f {
+				if fails.len() < 12 {
+					fails.push(x);
+				}
+			}
+		}
+		if round < 50 {
+			sample.push((round as u64, cfg.threads as u64));
+		}
+	}
+	(total, fails, sample)
+}
+
 struct StressEnv {
 	file_path: PathBuf,
 	file_data: Arc<Vec<u8>>,
 	containers: HashMap<String, (Arc<Box<dyn TilesReaderTrait>>, Baseline, Groups)>,
+	rounds: HashMap<String, RoundTarget>,
 }
 
 fn stress_env(args: &Args, out: &mut Out, targets: &[&str]) -> StressEnv {
@@ -1119,12 +1366,15 @@ fn stress_env(args: &Args, out: &mut Out, targets: &[&str]) -> StressEnv {
 			}
 		}
 	}
-	StressEnv { file_path, file_data, containers }
+	let rounds = round_targets(args, out, targets);
+	StressEnv { file_path, file_data, containers, rounds }
 }
 
 fn run_stress(out: &mut Out, env: &StressEnv, cfg: &StressCfg) {
 	let (total, fails, sample) = if cfg.target == "file" {
 		stress_file(cfg, &env.file_path, &env.file_data)
+	} else if let Some(t) = env.rounds.get(&cfg.target) {
+		stress_rounds(cfg, t)
 	} else {
 		let Some((reader, base, groups)) = env.containers.get(&cfg.target) else { return };
 		stress_container(cfg, reader.clone(), base, groups)
@@ -1158,7 +1408,7 @@ pub fn run(args: &Args) {
 	}
 	quiet_panics();
 	let mut out = Out::new(&args.out);
-	out.rule = "(1) `C13 iso`: read_range calls of the real DataReaderFile traced with strace -ff from 4 threads (ranges inside the file, empty, and beyond EOF); the observed per-call syscall program is normalised and judged by the Lean model (isolated? equal to the modelled program? bytes it returns alone) – non-trivial = the call issues at least one syscall. (2) `C13 sched`: 1–4 random well-formed syscall programs (dup/open/lseek/read/pread/close on shared, aliased and own descriptors, plus the two read_range variants) and a random schedule, executed step by step with real syscalls and by the model – non-trivial = at least two non-empty programs whose steps alternate at least twice. (3) stress, oracle only: one reader shared by 2–16 OS threads / 16–64 tasks on a 16-worker tokio runtime, random byte ranges (disjoint regions per thread or overlapping; 1 B – 200 KB; position-dependent file bytes) resp. random tile coordinates (present and absent) on versatiles/pmtiles/tar files written by the real writers, and on PMTiles files WITH leaf directories (16900 tiles through the real writer; independently encoded files with 2 and 3 directory levels) where each caller mostly stays in one leaf and different callers use leaves far apart; every result is compared with the sequential result; distinct = by (target, executor, threads, request) over the first 200 requests of every thread".into();
+	out.rule = "(1) `C13 iso`: read_range calls of the real DataReaderFile traced with strace -ff from 4 threads (ranges inside the file, empty, and beyond EOF); the observed per-call syscall program is normalised and judged by the Lean model (isolated? equal to the modelled program? bytes it returns alone) – non-trivial = the call issues at least one syscall. (2) `C13 sched`: 1–4 random well-formed syscall programs (dup/open/lseek/read/pread/close on shared, aliased and own descriptors, plus the two read_range variants) and a random schedule, executed step by step with real syscalls and by the model – non-trivial = at least two non-empty programs whose steps alternate at least twice. (3) stress, oracle only: one reader shared by 2–16 OS threads / 16–64 tasks on a 16-worker tokio runtime, random byte ranges (disjoint regions per thread or overlapping; 1 B – 200 KB; position-dependent file bytes) resp. random tile coordinates (present and absent) on versatiles/pmtiles/tar files written by the real writers, and on PMTiles files WITH leaf directories (16900 tiles through the real writer; independently encoded files with 2 and 3 directory levels) where each caller mostly stays in one leaf and different callers use leaves far apart; rounds on FRESHLY opened versatiles readers (cold tile-index cache) in which the callers mix bbox streams spanning 1–16 blocks with lookups (each stream must equal the stream run alone), and lookups on a container with a damaged tile index (each verdict bytes/none/err must equal the verdict of a fresh reader); every result is compared with the sequential result; distinct = by (target, executor, threads, request) over the first 200 requests of every thread".into();
 	if let Some(p) = &args.replay {
 		let lines: Vec<String> = std::fs::read_to_string(p).unwrap().lines().map(|s| s.to_string()).collect();
 		let targets: Vec<&str> = lines.iter().filter(|l| l.starts_with("C13 stress ")).filter_map(|l| l.split(' ').nth(2)).collect();
@@ -1187,7 +1437,7 @@ pub fn run(args: &Args) {
 	let mut rng = Rng::new(args.seed);
 	strace_tie(args, &mut out, args.n(400, 3000), 4);
 	kernel_model_cases(args, &mut out, &mut rng);
-	let env = stress_env(args, &mut out, &["file", "versatiles", "pmtiles", "tar", "pmtiles-leaves", "pmtiles-indep2", "pmtiles-indep3"]);
+	let env = stress_env(args, &mut out, &["file", "versatiles", "pmtiles", "tar", "pmtiles-leaves", "pmtiles-indep2", "pmtiles-indep3", "versatiles-blocks", "versatiles-damaged"]);
 	let file_calls = args.n(480_000, 6_000_000); // per configuration, split over the threads
 	for (exec, threads) in [("threads", 2usize), ("threads", 4), ("threads", 8), ("threads", 16), ("tokio", 16), ("tokio", 64)] {
 		for mode in ["overlap", "disjoint"] {
@@ -1206,6 +1456,14 @@ pub fn run(args: &Args) {
 	for target in ["pmtiles-leaves", "pmtiles-indep2", "pmtiles-indep3"] {
 		for (exec, threads) in [("threads", 2usize), ("threads", 8), ("tokio", 8), ("tokio", 32)] {
 			let cfg = StressCfg { target: target.into(), exec: exec.into(), threads, calls: tile_calls / threads, mode: "leaves".into(), seed: rng.next() % 1_000_000 };
+			run_stress(&mut out, &env, &cfg);
+		}
+	}
+	// fresh readers per round: concurrent bbox streams over several blocks mixed with lookups; lookups on a
+	// container with a damaged tile index (every verdict = the verdict of a fresh reader)
+	for target in ["versatiles-blocks", "versatiles-damaged"] {
+		for (exec, threads) in [("threads", 4usize), ("threads", 12), ("tokio", 8), ("tokio", 24)] {
+			let cfg = StressCfg { target: target.into(), exec: exec.into(), threads, calls: args.n(240, 2400), mode: "rounds".into(), seed: rng.next() % 1_000_000 };
 			run_stress(&mut out, &env, &cfg);
 		}
 	}
